@@ -500,6 +500,19 @@ func checkC07(c *Ctx) {
 				handCase{fmt.Sprintf("values/loop-variable/%d", n), "令典 = " + dl + "\n以项遍历 典之所有值：\n\t以项（后增：9）\n输出 典\n", "dict[" + strings.Join(wk, ",") + "]"},
 			)
 		}
+		// the items of a list / dictionary literal are copies of what their expressions yield - the
+		// first, a middle, the last and the only item alike - wherever the literal is used without
+		// being stored first: as an argument, as the collection a loop runs over, as a receiver
+		mod := "如何改？\n\t输入表\n\t以项遍历表：\n\t\t以项（后增：9）\n\t输出 1\n如何改典？\n\t输入表\n\t以键、项遍历表：\n\t\t项#“k” = 7\n\t输出 1\n令甲 = 【1，2】\n令乙 = 【3】\n令典 = 【“k” = 0】\n"
+		for li, lit := range []string{"【甲】", "【甲，乙】", "【【】，甲】", "【甲，【】】", "【乙，甲，乙】", "【乙，乙，甲】"} {
+			hc = append(hc,
+				handCase{fmt.Sprintf("literal-item/argument/%d", li), mod + "（改：" + lit + "）\n输出【甲，乙】\n", "list[list[num(1),num(2)],list[num(3)]]"},
+				handCase{fmt.Sprintf("literal-item/loop/%d", li), mod + "以项遍历" + lit + "：\n\t如果 项 不为 0：\n\t\t以项（后增：9）\n输出【甲，乙】\n", "list[list[num(1),num(2)],list[num(3)]]"},
+			)
+		}
+		for li, lit := range []string{"【“a” = 典】", "【“a” = 【“k” = 5】，“b” = 典】", "【“a” = 典，“b” = 【“k” = 5】】"} {
+			hc = append(hc, handCase{fmt.Sprintf("literal-item/dictionary-argument/%d", li), mod + "（改典：" + lit + "）\n输出 典\n", `dict["k"=num(0)]`})
+		}
 		c.runHand("derived-lists", hc)
 	}
 	// values handed to a library constructor are stored like values handed to a constructor
